@@ -1,6 +1,6 @@
 """C04 — constant folding and propagation are unobservable: MC_C04.tla (every literal/hidden twin has the
 single meaning the specification gives it; the permitted parse-time errors are specified per twin) + replay.
-In addition the cases of the scope, evaluation-order, cell and type-test suites are run together with their constant
+In addition the cases of the scope, evaluation-order, cell, type-test and iterator suites are run together with their constant
 twins (every hidden operand visible to the folder, see harness/src/lang.rs `unhide`): a twin that departs from the
 specification where the case itself does not is a folding defect."""
 from checks._suitecheck import run_one
@@ -15,4 +15,4 @@ def run(tier):
         ["`hide` = identity function h_k(v) the optimiser cannot see through",
          "named deviation (DESIGN §10): an always-failing operation on captured values inside a closure body may "
          "surface as that documented error when the closure is created"],
-        twin_suites=("c06", "c07", "c13", "c12t"))
+        twin_suites=("c06", "c07", "c13", "c12t", "c11"))
